@@ -27,6 +27,13 @@ func init() {
 				if fr := freeRunOf(eco); fr != "" && !has(vs, fr) {
 					vs = append(vs, fr)
 				}
+				// prefixes and decorations the parser accepts in front of a version
+				for _, pre := range versionDecorations[eco] {
+					core := "{d}.{d}.{d}"
+					if t := pre + core; !has(vs, t) {
+						vs = append(vs, t)
+					}
+				}
 				third := thin(all, 2)
 				for _, s := range vs {
 					for _, pd := range pads {
@@ -73,9 +80,18 @@ func init() {
 			return out
 		},
 		Bounds: func(tier string) string {
-			return "versions: 8 (quick) / 20 (thorough) grammar templates per ecosystem plus all ASCII strings of length <= 3 / 4; ranges: 10 / 30 templates (comparator and shorthand forms) plus up to 4 comparator ranges whose bound admits upper-case letters; paddings of 0-2 bytes per side drawn from space, tab, CR, LF; comparison against 2 further version templates"
+			return "versions: 8 (quick) / 20 (thorough) grammar templates per ecosystem, the free-run template and every accepted prefix decoration (v, V, =, v=, release-, rel-) plus all ASCII strings of length <= 3 / 4; ranges: 10 / 30 templates (comparator and shorthand forms) plus up to 4 comparator ranges whose bound admits upper-case letters; paddings of 0-2 bytes per side drawn from space, tab, CR, LF; comparison against 2 further version templates"
 		},
 	})
+}
+
+// versionDecorations: prefixes accepted in front of X.Y.Z by the ecosystem's version parser
+// (determined with the template-acceptance harness VXAccept; alpine's text fallback accepts anything).
+var versionDecorations = map[string][]string{
+	"alpm": {"v", "V", "release-"}, "conan": {"v", "V", "release-"}, "rpm": {"v", "V", "release-"}, "maven": {"v", "V", "release-", "="},
+	"composer": {"v", "release-", "rel-"}, "github": {"v", "release-", "rel-"},
+	"gem": {"v"}, "golang": {"v"}, "mattermost": {"v"}, "nuget": {"v"},
+	"npm": {"v", "=", "v=", "=v"},
 }
 
 // upperCapable keeps the templates with a class that admits upper-case letters.
